@@ -561,9 +561,19 @@ func c09CKKS(ctx *core.RunCtx) *c09Scheme {
 		}
 		return v
 	}
+	// one value in four is sparsely packed (fewer slots than the ring offers): operands of different dimensions meet
+	sparse := func(g *core.Xoshiro, pt *rlwe.Plaintext) []complex128 {
+		v := randVec(g)
+		if g.Next()%4 == 0 && cp.LogMaxSlots() > 2 {
+			pt.LogDimensions.Cols = cp.LogMaxSlots() - 1 - int(g.Next()%2)
+			v = v[:1<<pt.LogDimensions.Cols]
+			ctx.Count("probe.sparsely-packed-operand", 1)
+		}
+		return v
+	}
 	sc.fresh = func(g *core.Xoshiro, level int) *rlwe.Ciphertext {
 		pt := ckks.NewPlaintext(cp, level)
-		if err := enc.Encode(randVec(g), pt); err != nil {
+		if err := enc.Encode(sparse(g, pt), pt); err != nil {
 			ctx.Harness("encode: %v", err)
 		}
 		ct, err := encr.EncryptNew(pt)
@@ -579,7 +589,7 @@ func c09CKKS(ctx *core.RunCtx) *c09Scheme {
 			if g.Next()%2 == 0 {
 				pt.Scale = of.Scale
 			}
-			if err := enc.Encode(randVec(g), pt); err != nil {
+			if err := enc.Encode(sparse(g, pt), pt); err != nil {
 				ctx.Harness("encode: %v", err)
 			}
 			return pt
@@ -896,6 +906,79 @@ func c09CKKS(ctx *core.RunCtx) *c09Scheme {
 			if u1.kind == 0 {
 				if ok, w := eqPoly(cp.RingQ().AtLevel(lvl), q1.Value, q2.Value); !ok {
 					ctx.Fail("result", "ckks|Encoder.Encode|reused-plaintext-differs", "%s differs from a new encoder writing into a new plaintext: %s", what, w)
+					return false
+				}
+			}
+		}
+		// arbitrary-precision encoder: what a decoding handed to the caller (big numbers behind pointers, allocated by
+		// the encoder where the receiver had none) is the caller's: a later call on the same encoder changes nothing
+		// of it, and it equals what a new encoder returns
+		{
+			eb, et := ckks.NewEncoder(cp, 128), ckks.NewEncoder(cp, 128)
+			mkVals := func() []*bignum.Complex {
+				c := make([]*bignum.Complex, cp.MaxSlots())
+				for i := range c {
+					c[i] = &bignum.Complex{new(big.Float).SetPrec(128).SetFloat64(rf(g)), new(big.Float).SetPrec(128).SetFloat64(rf(g))}
+				}
+				return c
+			}
+			pa, pb := ckks.NewPlaintext(cp, cp.MaxLevel()), ckks.NewPlaintext(cp, cp.MaxLevel())
+			if err := eb.Encode(mkVals(), pa); err != nil {
+				ctx.Harness("ckks big-precision encode: %v", err)
+			}
+			if err := eb.Encode(mkVals(), pb); err != nil {
+				ctx.Harness("ckks big-precision encode: %v", err)
+			}
+			text := func(x any) string {
+				var sb []byte
+				switch v := x.(type) {
+				case []*bignum.Complex:
+					for _, c := range v {
+						sb = append(sb, c[0].Text('p', 0)...)
+						sb = append(sb, '|')
+						sb = append(sb, c[1].Text('p', 0)...)
+						sb = append(sb, ';')
+					}
+				case []*big.Float:
+					for _, c := range v {
+						sb = append(sb, c.Text('p', 0)...)
+						sb = append(sb, ';')
+					}
+				}
+				return string(sb)
+			}
+			n := cp.MaxSlots()
+			var r1, r2 any
+			kind := int(g.Next() % 3)
+			switch kind {
+			case 0: // receiver without entries: the encoder allocates them
+				r1, r2 = make([]*bignum.Complex, n), make([]*bignum.Complex, n)
+			case 1: // entries present
+				a, b := make([]*bignum.Complex, n), make([]*bignum.Complex, n)
+				for i := range a {
+					a[i], b[i] = bignum.NewComplex(), bignum.NewComplex()
+				}
+				r1, r2 = a, b
+			default:
+				r1, r2 = make([]*big.Float, n), make([]*big.Float, n)
+			}
+			d1 := c09Exec(func() error { return eb.Decode(pa, r1) })
+			d2 := c09Exec(func() error { return et.Decode(pa, r2) })
+			ctx.Count("oracle.encoder-twin", 1)
+			if d1.kind != d2.kind || d1.kind == 0 && text(r1) != text(r2) {
+				ctx.Fail("result", "ckks|Encoder(prec=128).Decode|differs", "Decode (%T, receiver kind %d) on a used arbitrary-precision encoder differs from a new encoder (%s / %s)", r1, kind, d1, d2)
+				return false
+			}
+			if d1.kind == 0 {
+				before := text(r1)
+				var other any = make([]*bignum.Complex, n)
+				if g.Next()%2 == 0 {
+					_ = eb.Decode(pb, other)
+				} else {
+					_ = eb.Encode(mkVals(), ckks.NewPlaintext(cp, cp.MaxLevel()))
+				}
+				if text(r1) != before {
+					ctx.Fail("inputs", "ckks|Encoder(prec=128).Decode|returned-values-alias-scratch", "the values that Decode returned in a %T (receiver kind %d) changed when the encoder was used again: they point into its buffers", r1, kind)
 					return false
 				}
 			}
